@@ -238,10 +238,11 @@ Section Proofs.
   Lemma sel_arg_item_v : forall a, sel_arg_ok_v norm a = true -> canon (arg_item norm a) = true.
   Proof.
     intros a H. unfold sel_arg_ok_v in H. apply andb_true_iff in H. destruct H as [H1 H2].
-    destruct a as [x|x|x al]; simpl in *.
+    destruct a as [x|x|x al|x]; simpl in *.
     - destruct (ident_ref_ok x H1) as [E G]. rewrite E. apply canon_ident_p, G.
     - destruct (ident_ref_ok x H1) as [E G]. rewrite E. apply canon_ident_p, G.
     - rewrite (ident_good al H2). apply canon_ident_p, H2.
+    - destruct (ident_ref_ok x H1) as [E G]. rewrite E. apply canon_ident_p, G.
   Qed.
 
   Lemma outer_fst : forall d, Inv (dmap d) (sel d) -> map fst (outer norm c d) = sel d.
@@ -290,10 +291,11 @@ Section Proofs.
       intros it Hin. apply in_map_iff in Hin. destruct Hin as [cd [E Hcd]]. subst it.
       apply filter_In in Hcd. apply Hi, In_outer_fst; tauto.
     - (* groupBy.agg *)
+      match type of Hb with (if ?b then _ else _) = _ => destruct b end; [discriminate|].
       injection Hb as Hs Hr; subst self' res. simpl. unfold pre_group. rewrite dmap_pre_with.
       apply andb_true_iff in Hv. destruct Hv as [Hk Ha]. rewrite forallb_forall in Hk, Ha.
       apply Inv_app; intros it Hin; apply in_map_iff in Hin; destruct Hin as [a [E Hin]]; subst it.
-      + specialize (Hk a Hin). destruct a as [x|x|x al]; simpl in Hk; try discriminate;
+      + specialize (Hk a Hin). destruct a as [x|x|x al|x]; simpl in Hk; try discriminate;
           apply andb_true_iff in Hk; destruct Hk as [H1 H2]; destruct (ident_ref_ok x H1) as [E G]; simpl; rewrite E;
           (apply inv_item_new_unq; [apply canon_ident_p, G | simpl; destruct (qspark (attr x)); [discriminate|reflexivity]]).
       + specialize (Ha a Hin). unfold bare_unquoted in Ha. apply andb_true_iff in Ha. destruct Ha as [H1 H2].
@@ -346,6 +348,19 @@ Section Proofs.
       injection Hb as Hs Hr; subst self' res. exact Hi.
     - injection Hb as Hs Hr; subst self' res. exact Hi.
     - injection Hb as Hs Hr; subst self' res. exact Hi.
+    - match type of Hb with (if ?b then _ else _) = _ => destruct b end; [|discriminate].
+      injection Hb as Hs Hr; subst self' res. exact Hi.
+    - (* join on a condition *)
+      injection Hb as Hs Hr; subst self' res. simpl.
+      rewrite forallb_forall in Hv. rewrite (Inv_renorm _ _ Hi).
+      intros it Hin. apply in_map_iff in Hin. destruct Hin as [nmx [E Hin]]. subst it.
+      apply in_map_iff in Hin. destruct Hin as [x [E Hx]]. subst nmx. fold (renorm x).
+      apply in_app_or in Hx. destruct Hx as [Hx|Hx].
+      + rewrite (canon_renorm x (proj1 (inv_item_spec _ _ (Hi x Hx)))). apply Hi, Hx.
+      + apply in_map_iff in Hx. destruct Hx as [n [E Hn]]. subst x.
+        specialize (Hv n Hn). unfold bare_unquoted in Hv. apply andb_true_iff in Hv. destruct Hv as [H1 H2].
+        rewrite (ident_good n H1). rewrite (canon_renorm _ (canon_ident_p n H1)).
+        apply inv_item_new_unq; [apply canon_ident_p, H1|]. simpl. destruct (qspark n); [discriminate|reflexivity].
   Qed.
 
   Lemma pre_Inv : forall m d, Inv (dmap d) (sel d) ->
@@ -527,12 +542,13 @@ Section Proofs.
     intros ns a Hc H. destruct (cfg_ok_spec Hc) as (_ & _ & _ & _ & _ & _ & CI & AR & SR).
     unfold sel_arg_ok in H. apply andb_true_iff in H. destruct H as [H H3].
     apply andb_true_iff in H. destruct H as [H1 H2].
-    unfold arg_rec, kv. destruct a as [x|x|x al]; simpl in *.
+    unfold arg_rec, kv. destruct a as [x|x|x al|x]; simpl in *.
     - destruct (ident_ref_ok x H1) as [E G]. rewrite E, SR.
       assert (A : attr x = x) by (unfold attr, user_ident; rewrite (unbt_plain x H3); reflexivity).
       rewrite A in *. auto.
     - destruct (ident_ref_ok x H1) as [E G]. rewrite E, CI. auto.
     - rewrite (ident_good al H3), AR. auto.
+    - destruct (ident_ref_ok x H1) as [E G]. rewrite E, CI. auto.
   Qed.
 
   Lemma mem_keys_same : forall ns n, (forall x, In x ns -> plain x = true) -> plain n = true ->
@@ -678,6 +694,8 @@ Section Proofs.
       injection Hb as _ Hr. subst res. exists ns. simpl. rewrite Hv. split; [reflexivity|]. repeat split; assumption.
     - injection Hb as _ Hr. subst res. exists ns. split; [reflexivity|]. repeat split; assumption.
     - injection Hb as _ Hr. subst res. exists ns. split; [reflexivity|]. repeat split; assumption.
+    - match type of Hb with (if ?b then _ else _) = _ => destruct b end; [|discriminate].
+      injection Hb as _ Hr. subst res. exists ns. simpl. rewrite Hv. split; [reflexivity|]. repeat split; assumption.
   Qed.
 
   Lemma Rel_same : forall d d' ns, sel d' = sel d -> dmap d' = dmap d -> Rel d ns -> Rel d' ns.
